@@ -126,6 +126,41 @@ def classOf (tbl : List Entry) (host : Bytes) (qt : Nat) : String :=
   let hops := if run.visited.length ≥ 2 then "+chain" else ""
   base ++ hops ++ (if unstableRegime tbl host qt then "+unstable" else "")
 
+/-- One lookup: `tbl` is the model's live table, `specTbl` the table the spec
+judges against (the configured entries, normalized). -/
+def judgeQuery (tbl specTbl : List Entry) (host : Bytes) (qt : Nat) (impl : List String) :
+    Option String := do
+  let mPr := processRewrites tbl host qt
+  let mCh := checkHost tbl host qt
+  let modelS := classOf tbl host qt ++ "\t" ++ showOut mPr ++ "\t|\t" ++ showOut mCh
+  match parseOut impl with
+  | some (iPr, rest2) =>
+    match parseOut rest2 with
+    | some (iCh, []) =>
+      let lh := Bytes.lower host
+      let chAgree := checkAgree tbl host qt iCh
+      let agree := explains tbl host qt iPr && chAgree
+      let spec :=
+        -- processRewrites expects a lower-cased name (CheckHost lower-cases it): the
+        -- case-insensitive monitor applies there; a mixed-case name handed to
+        -- processRewrites directly is judged byte for byte
+        if !(if lh = host then Spec.specOK specTbl host qt iPr else Spec.specExact specTbl host qt iPr) then
+          some (Spec.failClass specTbl host qt iPr)
+        else if host ≠ [] ∧ !Spec.specOK specTbl lh qt iCh then
+          some (Spec.failClass specTbl lh qt iCh ++ ".checkhost")
+        else if host = [] ∧ iCh.rewritten then some "C06.root-query-rewritten"
+        else none
+      pure (verdict agree spec modelS)
+    | _ => none
+  | none =>
+    match impl with
+    | ["SKIP"] => pure (verdict true none modelS)   -- harness gave up after a hang (already reported)
+    | ["HANG"] => pure (verdict false (some "C06.nontermination") modelS)
+    | "PANIC" :: _ => pure (verdict false (some "C06.panic") modelS)
+    | _ =>
+      -- an unexpected Reason (neither NotFilteredNotFound nor Rewritten) or an error
+      pure (verdict false (some "C06.unexpected-result") modelS)
+
 def stepRw (ins impl : List String) : Option String := do
   match ins with
   | nS :: rest =>
@@ -136,37 +171,113 @@ def stepRw (ins impl : List String) : Option String := do
       let host ← hexDecode hostS
       let qt ← parseNat qtS
       let tbl := prepare raws
-      let mPr := processRewrites tbl host qt
-      let mCh := checkHost tbl host qt
-      let modelS := classOf tbl host qt ++ "\t" ++ showOut mPr ++ "\t|\t" ++ showOut mCh
-      match parseOut impl with
-      | some (iPr, rest2) =>
-        match parseOut rest2 with
-        | some (iCh, []) =>
-          let lh := Bytes.lower host
-          let chAgree := checkAgree tbl host qt iCh
-          let agree := explains tbl host qt iPr && chAgree
-          let spec :=
-            -- processRewrites expects a lower-cased name (CheckHost lower-cases it): the
-            -- case-insensitive monitor applies there; a mixed-case name handed to
-            -- processRewrites directly is judged byte for byte
-            if !(if lh = host then Spec.specOK tbl host qt iPr else Spec.specExact tbl host qt iPr) then
-              some (Spec.failClass tbl host qt iPr)
-            else if host ≠ [] ∧ !Spec.specOK tbl lh qt iCh then some (Spec.failClass tbl lh qt iCh ++ ".checkhost")
-            else if host = [] ∧ iCh.rewritten then some "C06.root-query-rewritten"
-            else none
-          pure (verdict agree spec modelS)
-        | _ => none
-      | none =>
-        match impl with
-        | ["SKIP"] => pure (verdict true none modelS)   -- harness gave up after repeated hangs (already reported)
-        | ["HANG"] => pure (verdict false (some "C06.nontermination") modelS)
-        | "PANIC" :: _ => pure (verdict false (some "C06.panic") modelS)
-        | _ =>
-          -- an unexpected Reason (neither NotFilteredNotFound nor Rewritten) or an error
-          pure (verdict false (some "C06.unexpected-result") modelS)
+      judgeQuery tbl tbl host qt impl
     | _ => none
   | _ => none
+
+/-
+Sequence mode, one long-lived DNSFilter per block (state: the model's live table
+and the configured list the spec tracks):
+  C06.reset  autosave  n (domain answer kind ip)×n   =>  DUMP
+  C06.q      host qtype                              =>  PR CH
+  C06.write  same                                    =>  DUMP(live) DUMP(written config)
+  C06.add    domain answer kind ip                   =>  status DUMP
+  C06.del    domain answer                           =>  status DUMP
+  C06.upd    tdomain tanswer domain answer kind ip   =>  status DUMP
+  DUMP = n (domain answer type ip)×n of d.conf.Rewrites, derived fields included
+-/
+structure SeqState where
+  tbl : List Entry
+  rs : List Raw
+
+def parseRows : Nat → List String → Option (List Spec.Row × List String)
+  | 0, rest => some ([], rest)
+  | n + 1, d :: a :: t :: ip :: rest => do
+    let dom ← hexDecode d
+    let ans ← hexDecode a
+    let typ ← parseNat t
+    let ipb ← hexDecode ip
+    let (rs, rest') ← parseRows n rest
+    pure ((dom, ans, typ, ipb) :: rs, rest')
+  | _, _ => none
+
+def parseDump : List String → Option (List Spec.Row × List String)
+  | nS :: rest => do
+    let n ← parseNat nS
+    parseRows n rest
+  | _ => none
+
+def showDump (t : List Entry) : String :=
+  toString t.length ++ String.join (t.map (fun e =>
+    "\t" ++ hexEncode e.domain ++ "\t" ++ hexEncode e.answer ++ "\t" ++ toString e.typ.code ++ "\t" ++
+      hexEncode (e.ip.getD [])))
+
+/-- Judge the dump(s) after a table operation. -/
+def judgeTable (st : SeqState) (opName : String) (wantStatus : Option Nat) (impl : List String) :
+    String :=
+  let modelS := "table-" ++ opName ++ "\t" ++ showDump st.tbl
+  let parsed : Option (Option Nat × List (List Spec.Row)) := do
+    let (status, rest) ← (match wantStatus, impl with
+      | some _, sS :: rest => (parseNat sS).map (fun v => (some v, rest))
+      | none, rest => some (none, rest)
+      | _, _ => none)
+    let (d1, rest1) ← parseDump rest
+    if rest1.isEmpty then pure (status, [d1])
+    else
+      let (d2, rest2) ← parseDump rest1
+      if rest2.isEmpty then pure (status, [d1, d2]) else none
+  match parsed with
+  | some (status, dumps) =>
+    let agree := status == wantStatus && dumps.all (fun d => d == st.tbl.map Spec.rowOf)
+    let spec :=
+      if !dumps.all (Spec.tableOK st.rs) then some ("C06.table-changed-by-" ++ opName)
+      else if status != wantStatus then some ("C06.edit-status-" ++ opName)
+      else none
+    verdict agree spec modelS
+  | none =>
+    match impl with
+    | "PANIC" :: _ => verdict false (some ("C06.panic-" ++ opName)) modelS
+    | _ => verdict false (some ("C06.unexpected-result-" ++ opName)) modelS
+
+def parseRaw1 (d a k ip : String) : Option Raw := do
+  let (rs, _) ← parseRaws 1 [d, a, k, ip]
+  rs.head?
+
+def stepSeq (st : SeqState) (op : String) (ins impl : List String) : Option (SeqState × String) := do
+  match op, ins with
+  | "C06.reset", _auto :: nS :: rest =>
+    let n ← parseNat nS
+    let (raws, rest') ← parseRaws n rest
+    if !rest'.isEmpty then none
+    let st' : SeqState := ⟨prepare raws, raws⟩
+    pure (st', judgeTable st' "reset" none impl)
+  | "C06.q", [hostS, qtS] =>
+    let host ← hexDecode hostS
+    let qt ← parseNat qtS
+    let out ← judgeQuery st.tbl (prepare st.rs) host qt impl
+    pure (st, out)
+  | "C06.write", [_same] =>
+    let st' : SeqState := ⟨(stepTable st.tbl .write).1, Spec.editRaws st.rs .write⟩
+    pure (st', judgeTable st' "write" none impl)
+  | "C06.add", [d, a, k, ip] =>
+    let r ← parseRaw1 d a k ip
+    let (t, ok) := stepTable st.tbl (.add r)
+    let st' : SeqState := ⟨t, Spec.editRaws st.rs (.add r)⟩
+    pure (st', judgeTable st' "add" (some (if ok then 200 else 400)) impl)
+  | "C06.del", [d, a] =>
+    let dom ← hexDecode d
+    let ans ← hexDecode a
+    let (t, ok) := stepTable st.tbl (.del dom ans)
+    let st' : SeqState := ⟨t, Spec.editRaws st.rs (.del dom ans)⟩
+    pure (st', judgeTable st' "del" (some (if ok then 200 else 400)) impl)
+  | "C06.upd", [td, ta, d, a, k, ip] =>
+    let tdom ← hexDecode td
+    let tans ← hexDecode ta
+    let r ← parseRaw1 d a k ip
+    let (t, ok) := stepTable st.tbl (.upd tdom tans r)
+    let st' : SeqState := ⟨t, Spec.editRaws st.rs (.upd tdom tans r)⟩
+    pure (st', judgeTable st' "upd" (some (if ok then 200 else 400)) impl)
+  | _, _ => none
 
 /-
 Line:  C06.dns  n  (domain answer kind ip)×n  host  qtype  upstream-rcode  =>  k asked×k  rcode  qname  m  (typ owner data)×m
@@ -240,17 +351,24 @@ def stepDns (ins impl : List String) : Option String := do
     | _ => none
   | _ => none
 
-def step (_ : Unit) (line : String) : Unit × String :=
+def step (st : SeqState) (line : String) : SeqState × String :=
   let fs := splitTab line
   match fs with
   | "C06.rw" :: rest =>
     match splitArrow rest with
-    | some (ins, impl) => ((), (stepRw ins impl).getD "bad-op")
-    | none => ((), "bad-op")
+    | some (ins, impl) => (st, (stepRw ins impl).getD "bad-op")
+    | none => (st, "bad-op")
   | "C06.dns" :: rest =>
     match splitArrow rest with
-    | some (ins, impl) => ((), (stepDns ins impl).getD "bad-op")
-    | none => ((), "bad-op")
-  | _ => ((), "bad-op")
+    | some (ins, impl) => (st, (stepDns ins impl).getD "bad-op")
+    | none => (st, "bad-op")
+  | op :: rest =>
+    match splitArrow rest with
+    | some (ins, impl) =>
+      match stepSeq st op ins impl with
+      | some (st', out) => (st', out)
+      | none => (st, "bad-op")
+    | none => (st, "bad-op")
+  | _ => (st, "bad-op")
 
-def main : IO Unit := run step ()
+def main : IO Unit := run step ⟨[], []⟩
